@@ -53,12 +53,16 @@ def kv (ws : List String) (k : String) : Option String :=
 def fieldsOf (ws : List String) : List String :=
   ws.filter (fun w => ["st=", "name=", "pid=", "pg=", "mon=", "kids=", "link=", "sup=", "post="].any (w.startsWith ·))
 
-/-- a waiter returned on this line: the snapshot it sees must be that of a fully stopped actor -/
+/-- a waiter returned on this line: the snapshot it sees must be that of a fully stopped actor —
+`ExitRace.snapshotOk` (the predicate of `C06.waiter_returns_only_after_full_stop`) on the
+implementation's observation -/
 def returnOk (cause : String) (ws : List String) : Bool :=
-  kv ws "st" == some "6" && kv ws "name" == some "0" && kv ws "pid" == some "0" && kv ws "pg" == some "0"
-    && kv ws "mon" == some "0" && kv ws "kids" == some "0" && kv ws "link" == some "0"
-    && ((kv ws "sup").bind (·.toNat?)).getD 0 ≥ 2
-    && (!(cause == "stop" || cause == "drain") || kv ws "post" == some "1")
+  let is0 (k : String) : Bool := kv ws k == some "0"
+  let flags : Flags :=
+    { unregPid := is0 "pid", unregName := is0 "name", pgDemon := is0 "mon", pgLeft := is0 "pg",
+      postStop := kv ws "post" == some "1", terminated := is0 "kids",
+      supNotified := ((kv ws "sup").bind (·.toNat?)).getD 0 ≥ 2, unlinked := is0 "link" }
+  snapshotOk (((kv ws "st").bind (·.toNat?)).getD 0) flags (cause == "stop" || cause == "drain")
 
 def track (c : Case) (iw : List String) : Case × List String :=
   let st := ((kv iw "st").bind (·.toNat?)).getD 0
@@ -122,11 +126,29 @@ def step1 (st : St) (op impl : String) : St × StepOut :=
       (if c.unregRuns ≤ 1 && c.notifyRuns ≤ 1 then [] else ["cleanup-twice"]) ++
       (if kv iw "st" == some "6" then [] else ["not-stopped-at-end"])
     ({ st with c := c }, { model := model, oracle := orc, nontrivial := c.raced })
+  | "xstress" :: _ =>
+    -- free-running tasks: `w=<kind:result:st:name:pid:pg:mon:kids:link:post,…> sup=<events> st=<final>`
+    let ws := ((kv iw "w").getD "").splitOn ","
+    let sup := ((kv iw "sup").getD "").splitOn ","
+    let terminal := sup.filter (fun e => e.startsWith "Terminated" || e == "Failed")
+    let graceful := sup.contains "Terminated:-" || sup.contains "Terminated:Drained"
+    let bad (w : String) : List String :=
+      match w.splitOn ":" with
+      | [kind, res, st, name, pid, pg, mon, kids, link, post] =>
+        (if res == "ok" && !(st == "6" && name == "0" && pid == "0" && pg == "0" && mon == "0" && kids == "0"
+            && link == "0" && (!graceful || post == "1")) then ["premature-return"] else []) ++
+        (if res == "timeout" && kind != "wait_timeout" then ["spurious-timeout"] else [])
+      | [_, "hung", _] => ["lost-wakeup"]
+      | _ => ["unparsable"]
+    let orc := (ws.map bad).foldl (· ++ ·) [] ++
+      (if terminal.length == 1 then [] else ["terminal-event-count"]) ++
+      (if kv iw "st" == some "6" then [] else ["not-stopped-at-end"])
+    (st, { model := impl, oracle := orc.eraseDups, nontrivial := true })
   | _ => (st, { model := "bad-op" })
 
 def step (st : St) (op impl : String) : St × StepOut :=
   let (st', out) := step1 st op impl
-  if st.diverged && !(op.startsWith "case ") then (st', { out with model := impl })
+  if st.diverged && !(op.startsWith "case ") && !(op.startsWith "xstress ") then (st', { out with model := impl })
   else if out.model != impl then ({ st' with diverged := true }, out)
   else (st', out)
 
